@@ -5,17 +5,22 @@ from core import run_retry, REPO
 ENV = {"OVNI_CONFIG_DIR": os.path.join(REPO, "cfg")}
 
 
-def run_tool(build, tool, args, timeout=30, env=None, stdin=None, cwd=None):
+def run_tool(build, tool, args, timeout=30, env=None, stdin=None, cwd=None, nofile=None):
+    """nofile: run the tool with this limit on open file descriptors (a trace
+    may have more streams than the limit; the tools map a stream and close it)."""
     e = dict(ENV)
     if env:
         e.update(env)
-    return run_retry([build.tool(tool)] + list(args), env=e, timeout=timeout, stdin=stdin, cwd=cwd)
+    argv = [build.tool(tool)] + list(args)
+    if nofile:
+        argv = ["sh", "-c", 'ulimit -n %d && exec "$@"' % nofile, "sh"] + argv
+    return run_retry(argv, env=e, timeout=timeout, stdin=stdin, cwd=cwd)
 
 
-def emu(build, tracedir, args=(), timeout=30, env=None):
+def emu(build, tracedir, args=(), timeout=30, env=None, nofile=None):
     # pre-create the cfg directory: the emulator then skips copying the
     # Paraver configuration files (halves the run time of tiny traces)
-    return run_tool(build, "ovniemu", list(args) + [tracedir], timeout=timeout, env=env)
+    return run_tool(build, "ovniemu", list(args) + [tracedir], timeout=timeout, env=env, nofile=nofile)
 
 
 def accepted(res):
